@@ -338,6 +338,11 @@ func (vc *FnVC) builtin(st *State, b *ssa.Builtin, c *ssa.CallCommon, instr *ssa
 			_, _, ln := vc.mapKeys(t)
 			r := vc.define("maplen", "Int", smtIte(sx("=", x.S, "0"), "0", sx("select", vc.get(st, ln.Name), x.S)))
 			vc.assume(st, sx("<=", "0", r))
+			// the length is the cardinality of the domain: an empty map has no keys, a key implies len >= 1
+			dom, _, _ := vc.mapKeys(t)
+			_, _, _, ks, _ := mapKeyNames(t)
+			d := sx("select", vc.get(st, dom.Name), x.S)
+			vc.assume(st, fmt.Sprintf("(forall ((q %s)) (! (=> (select %s q) (>= %s 1)) :pattern ((select %s q))))", ks, d, r, d))
 			return &Val{T: tInt, S: r}
 		case *types.Array:
 			return &Val{T: tInt, S: fmt.Sprint(t.Len())}
